@@ -138,6 +138,24 @@ Theorem C08_remove_by_peer_any_order : forall t x ks, wf [] t ->
 Proof. exact remove_by_peer_any_order. Qed.
 Print Assumptions C08_remove_by_peer_any_order.
 
+(* The sequential fact behind the CONCURRENT part of the check (look-ups racing
+   with configuration changes): if P, owned by x, is the longest stored prefix
+   containing the address a  ([stable t a P x] := wf [] t /\ In (P, x) (contents t)
+   /\ prefixb P a = true /\ no stored prefix containing a is longer than P),
+   then after ANY sequence of operations that leave (P, x) alone and do not add
+   a longer prefix containing a  ([unrelated_op]: Insert of a prefix that is not
+   P and not a longer prefix containing a; Remove of another prefix or for
+   another peer; RemoveByPeer of another peer; anything in the other family)
+   P is still the longest match and the look-up of a still answers x.  Hence
+   every linearisation of look-ups of a with such operations gives x.  That the
+   Go code IS linearisable (the RWMutex discipline of AllowedIPs) is not proved
+   here; it is exercised by the concurrent stress runs of the check. *)
+Theorem C08_lookup_stable_under_unrelated_ops : forall (churn : list op) s f a P x,
+  stable (sel s f) a P x -> Forall (unrelated_op f a P x) churn ->
+  stable (sel (final step s churn) f) a P x /\ tlookup (final step s churn) f a = Some x.
+Proof. exact lookup_stable_under_unrelated_ops. Qed.
+Print Assumptions C08_lookup_stable_under_unrelated_ops.
+
 (* ---------- non-vacuity ---------- *)
 Definition b (n : nat) (v : N) : bits :=    (* the n-bit big-endian numeral of v *)
   map (fun i => N.testbit v (N.of_nat (n - 1 - i))) (seq 0 n).
@@ -169,3 +187,28 @@ Example C08_nonvacuous_empty :
   final sstep sempty (h1 ++ [RemoveByPeer 5; RemoveByPeer 4; Remove V4 (b 8 0xA8) 6 3; RemoveByPeer 2]) = sempty
   /\ final step empty (h1 ++ [RemoveByPeer 5; RemoveByPeer 4; Remove V4 (b 8 0xA8) 6 3; RemoveByPeer 2]) = empty.
 Proof. vm_compute. split; reflexivity. Qed.
+
+(* [stable] and [unrelated_op] are inhabited by the shapes the stress runs use:
+   0xB0/4 (peer 2) stays the longest match of 0xB5 while /0 comes and goes, a
+   sibling and a longer prefix beside the address are churned. *)
+Example C08_nonvacuous_stable :
+  let s := final step empty h1 in
+  let churn := [Remove V4 (b 8 0) 0 4; Insert V4 (b 8 0) 0 7; Insert V4 (b 8 0xB8) 5 7;
+                RemoveByPeer 5; Insert V4 (b 8 0x80) 1 7; RemoveByPeer 7] in
+  stable (sel s V4) (b 8 0xB5) (b 4 0xB) 2 /\ Forall (unrelated_op V4 (b 8 0xB5) (b 4 0xB) 2) churn /\
+  tlookup (final step s churn) V4 (b 8 0xB5) = Some 2.
+Proof.
+  cbn zeta. split; [|split].
+  - split; [apply (proj1 (C08_wf_preserved h1))|]. split; [vm_compute; tauto|]. split; [reflexivity|].
+    intros p z H Hp. vm_compute in H.
+    repeat (destruct H as [H|H]; [inversion H; subst; clear H; vm_compute in Hp; try discriminate; cbn; lia|]).
+    destruct H.
+  - repeat match goal with |- Forall _ (_ :: _) => apply Forall_cons | |- Forall _ [] => apply Forall_nil end; cbn [unrelated_op].
+    + right; left. vm_compute. discriminate.
+    + right; split; [vm_compute; discriminate|]. intros [_ H]. vm_compute in H. lia.
+    + right; split; [vm_compute; discriminate|]. intros [H _]. vm_compute in H. discriminate.
+    + discriminate.
+    + right; split; [vm_compute; discriminate|]. intros [_ H]. vm_compute in H. lia.
+    + discriminate.
+  - vm_compute. reflexivity.
+Qed.
